@@ -19,6 +19,7 @@ def as_nobody():
 
 
 def viol(run, oracle, **kw):
+    kw = {('what_' + k if k in ('kind', 'oracle', 'layer') else k): v for k, v in kw.items()}
     run.violation(dict(kind='oracle-failed-on-implementation', oracle=oracle, layer='L4', **kw))
 
 
@@ -752,7 +753,7 @@ def _wrap_ssh(sb, name, body):
     return d
 
 
-@trial('C09', 'C15')
+@trial('C09', 'C15', 'C18')
 def ssh_ends_before_the_handshake(run, sb):
     """ssh (or what it starts) ends before the start-up handshake completes, without one of the recognised 'not present' messages: connection
     refused, authentication failure, a doer that dies at once, a doer that prints its version and dies: the boss gives up within bounded time"""
@@ -764,6 +765,7 @@ def ssh_ends_before_the_handshake(run, sb):
         'silent-exit': 'exit 1\n',
         'doer-dies-after-version': 'echo "rjrssync doer v%s"; echo "rjrssync doer v%s" >&2; exit 3\n' % (ver, ver),
         'garbage-then-exit': 'echo "Welcome to host"; echo "motd" >&2; sleep 0.2; exit 0\n',
+        'doer-with-closed-stdin': 'exec %s --doer <&-\n' % C.CLI_BIN,
     }
     for vname, body in variants.items():
         for place in ('dest', 'src'):
@@ -773,6 +775,9 @@ def ssh_ends_before_the_handshake(run, sb):
             r = l4.run_cli(a, env=env, timeout=30)
             run.case(('trial', 'ssh-ends-before-the-handshake', vname, place), True, sample=dict(layer='L4', trial='ssh-ends-before-the-handshake', variant=vname, remote=place, rc=r['rc'], wall_s=round(r['wall'], 2)) if place == 'dest' else None)
             run.count(f'trial:ssh-ends-before-the-handshake:rc={r["rc"]}')
+            if not r['timeout'] and r['rc'] not in (0, None, 10, 11, 12):
+                viol(run, 'every run ends with one of the documented exit statuses and an error message - never a panic, an abort or a signal (here: the remote end went away during the launch)',
+                     variant=vname, remote=place, rc=r['rc'], stderr=r['err'][-300:]); return
             if r['timeout'] or r['rc'] in (0, None):
                 viol(run, 'a doer process or its connection dying at any point - also before the handshake completes - makes rjrssync hand control back within bounded time with a non-zero status',
                      variant=vname, remote=place, rc=r['rc'], timed_out=r['timeout'], stderr=r['err'][-300:]); return
@@ -786,7 +791,7 @@ def unrelated_ssh_lines_with_alarming_words(run, sb):
     sb.place_remote('same')
     base = os.path.join(sb.dir, 'usl'); src = os.path.join(base, 'src')
     l3.make_tree(src, [('', 'D'), ('f', 'F', b'x', 10**18)])
-    noises = ['Permission denied, please try again.', '/etc/profile.d/x.sh: line 3: /opt/y: Permission denied', 'debug1: connect to address ::1 port 22: Connection refused',
+    noises = ['', 'Permission denied, please try again.', '/etc/profile.d/x.sh: line 3: /opt/y: Permission denied', 'debug1: connect to address ::1 port 22: Connection refused',
               'Warning: Permanently added host (ED25519) to the list of known hosts.', 'bind: Address already in use', 'Could not chdir to home directory /home/u: Host is down']
     for k, noise in enumerate(noises):
         for stream in ('stderr', 'stdout'):
@@ -902,3 +907,169 @@ def old_root_file(run, sb):
                 viol(run, 'every input ends with a documented exit status and, when it fails, an error message - never a panic', case=['source root', 'existing destination root', 'file inside a trailing-slash destination'][k],
                      args=args + extra, rc=r['rc'], stderr=r['err'][-400:]); return
         shutil.rmtree(base, ignore_errors=True)
+
+
+# ------------------------------------------------------------------ round 10
+
+@trial('C01', 'C07', 'C17')
+def special_files_in_trees(run, sb):
+    """a fifo / socket inside the source tree, or only inside the destination tree: it cannot be mirrored, so the run does not end 0 as if
+    the destination were the mirror (exit 0 means: same kind at every relative path, no additional entries)"""
+    import socket as _socket
+    for where in ('src', 'dst-only'):
+        for kind in ('fifo', 'socket'):
+            base = os.path.join(sb.dir, f'sft-{where}-{kind}')
+            src, dst = os.path.join(base, 'src'), os.path.join(base, 'dst')
+            l3.make_tree(src, [('', 'D'), ('a.txt', 'F', b'a', 10**18), ('d', 'D'), ('d/b.txt', 'F', b'b', 10**18)])
+            l3.make_tree(dst, [('', 'D'), ('d', 'D')])
+            p = os.path.join(src if where == 'src' else dst, 'd', 'special')
+            if kind == 'fifo':
+                os.mkfifo(p)
+            else:
+                s_ = _socket.socket(_socket.AF_UNIX); s_.bind(p); s_.close()
+            r = l4.run_cli([src + '/', dst + '/'], env=sb.env(), timeout=60)
+            run.case(('trial', 'special-files-in-trees', where, kind), True, sample=dict(layer='L4', trial='special-files-in-trees', where=where, kind=kind, rc=r['rc']) if kind == 'fifo' else None)
+            run.count('trial:special-files-in-trees')
+            d = l3.snapshot(dst)
+            if r['rc'] == 0 and ((where == 'src' and d.get(b'd/special', ('x',))[0] != '?') or (where == 'dst-only' and b'd/special' in d)):
+                viol(run, 'exit 0 means the destination mirrors the source on every included path (same kind, no additional entries): an entry that cannot be described or reproduced is an error, not something to leave out',
+                     where=where, kind=kind, rc=0, destination=sorted(p_.decode() for p_ in d), stdout=r['out'][-200:]); return
+            shutil.rmtree(base, ignore_errors=True)
+
+
+@trial('C06')
+def filters_with_a_trailing_slash(run, sb):
+    """a filter whose expression ends in a literal `/` matches no normalised path (paths carry no trailing slash): it changes nothing, for
+    folders as for files, on both sides alike"""
+    for flt in (['-cache/'], ['-out/'], ['+.*', '-cache/'], ['-(.*/)?cache/']):
+        base = os.path.join(sb.dir, 'fts%d' % abs(hash(tuple(flt)) % 10**6))
+        src, dst = os.path.join(base, 'src'), os.path.join(base, 'dst')
+        l3.make_tree(src, [('', 'D'), ('cache', 'D'), ('cache/blob.bin', 'F', b'blob', 10**18), ('out', 'D'), ('out/x', 'F', b'x', 10**18), ('keep.txt', 'F', b'k', 10**18)])
+        l3.make_tree(dst, [('', 'D'), ('out', 'F', b'a file named out', 10**18), ('cache', 'D'), ('cache/old', 'F', b'o', 10**18)])
+        a = [src + '/', dst + '/'] + [x for f in flt for x in ('--filter', f)]
+        r = l4.run_cli(a, env=sb.env(), timeout=60)
+        got = sorted(p for p in l3.snapshot(dst) if p)
+        want = sorted([b'cache', b'cache/blob.bin', b'keep.txt', b'out', b'out/x'])
+        run.case(('trial', 'filters-with-a-trailing-slash', tuple(flt)), True, sample=dict(layer='L4', trial='filters-with-a-trailing-slash', filters=flt, rc=r['rc']) if flt == ['-cache/'] else None)
+        run.count('trial:filters-with-a-trailing-slash')
+        if r['rc'] != 0 or got != want:
+            viol(run, 'a filter decides only when its expression matches the ENTIRE normalised root-relative path (forward slashes, no trailing slash), the same for every kind of entry and on both sides',
+                 filters=flt, rc=r['rc'], expected=[p.decode() for p in want], found=[p.decode() for p in got], stderr=r['err'][-300:]); return
+        shutil.rmtree(base, ignore_errors=True)
+
+
+@trial('C13', 'C17', 'C01')
+def walk_order_with_several_workers(run, sb):
+    """the walk with 2..8 worker threads (the override of the hooks build; several workers are what Windows uses) on a folder that holds
+    populated sub-folders and many other entries, copying and deleting: every folder is created before its contents and emptied before it
+    is removed - the run ends 0 in the mirror state"""
+    for threads in (2, 4, 8):
+        for phase in ('copy', 'delete'):
+            base = os.path.join(sb.dir, f'wow-{threads}-{phase}')
+            full, empty = os.path.join(base, 'full'), os.path.join(base, 'empty')
+            ents = [('', 'D')] + [(f'f{i:03d}', 'F', b'x', 10**18) for i in range(150)]
+            for k in range(6):
+                ents += [(f's{k}', 'D')] + [(f's{k}/g{i}', 'F', b'y', 10**18) for i in range(12)] + [(f's{k}/t', 'D'), (f's{k}/t/deep', 'F', b'z', 10**18)]
+            l3.make_tree(full, ents); os.makedirs(empty)
+            dst = os.path.join(base, 'dst')
+            if phase == 'delete':
+                shutil.copytree(full, dst, symlinks=True)
+            env = sb.env({'RJRSSYNC_VERIF_WALK_THREADS': str(threads), 'RJRSSYNC_VERIF_JITTER': str(threads * 7919)})
+            r = l4.run_cli([(full if phase == 'copy' else empty) + '/', dst + '/', '--no-progress'], env=env, timeout=90)
+            want = l3.snapshot(full if phase == 'copy' else empty); got = l3.snapshot(dst)
+            run.case(('trial', 'walk-order-with-several-workers', threads, phase), True, sample=dict(layer='L4', trial='walk-order-with-several-workers', threads=threads, phase=phase, rc=r['rc']) if threads == 4 else None)
+            run.count('trial:walk-order-with-several-workers')
+            if r['rc'] != 0 or r['timeout'] or sorted(want) != sorted(got):
+                viol(run, 'each entry is deleted before its parent folder and every folder is created before its contents, for every number of walker threads (a listing reports a folder before anything inside it)',
+                     walker_threads=threads, phase=phase, rc=r['rc'], entries_expected=len(want), entries_found=len(got), stderr=r['err'][-400:]); return
+            shutil.rmtree(base, ignore_errors=True)
+
+
+@trial('C16', 'C15')
+def all_destructive_does_not_grant_deployment(run, sb):
+    """--all-destructive-behaviour concerns the five sync behaviours; the deploy behaviour stays what --deploy / the spec file / the default
+    (prompt) say: with a remote that lacks the binary and no answer to the prompt nothing is uploaded, whatever --all-destructive-behaviour is"""
+    base = os.path.join(sb.dir, 'adg'); src = os.path.join(base, 'src')
+    l3.make_tree(src, [('', 'D'), ('f', 'F', b'x', 10**18)])
+    for adb in ('proceed', 'skip', 'error', 'prompt'):
+        for via in ('default', 'spec-error'):
+            shutil.rmtree(os.path.join(sb.remote, 'rjrssync'), ignore_errors=True); open(sb.log, 'w').close()
+            if via == 'default':
+                a = [src + '/', 'localhost:' + os.path.join(base, 'dst') + '/', '--all-destructive-behaviour', adb]
+            else:
+                spec = os.path.join(base, 'spec.yaml')
+                open(spec, 'w').write('dest_hostname: localhost\ndeploy_behaviour: error\nsyncs:\n  - src: %s/\n    dest: %s/\n' % (src, os.path.join(base, 'dst')))
+                a = ['--spec', spec, '--all-destructive-behaviour', adb]
+            r = l4.run_cli(a, env=sb.env(), timeout=90)
+            ups = [l for l in sb.fake_log() if l[0] == 'scp']
+            run.case(('trial', 'all-destructive-does-not-grant-deployment', adb, via), True, sample=dict(layer='L4', trial='all-destructive-does-not-grant-deployment', all_destructive=adb, deploy_from=via, rc=r['rc'], uploads=len(ups)) if adb == 'proceed' else None)
+            run.count('trial:all-destructive-does-not-grant-deployment')
+            if ups or r['rc'] == 0:
+                viol(run, 'the deploy behaviour in force is the --deploy flag if given, otherwise the spec-file value, otherwise the default prompt (an unanswered prompt uploads nothing and fails the run); --all-destructive-behaviour does not touch it',
+                     all_destructive=adb, deploy_from=via, args=a, rc=r['rc'], uploads=[l[1] for l in ups], stderr=r['err'][-300:]); return
+    shutil.rmtree(base, ignore_errors=True)
+
+
+def _in_mount_namespace(script, timeout=120):
+    """runs a bash script in a private mount namespace (needs root); returns (rc, stdout) or None when that is not possible here"""
+    try:
+        p = subprocess.run(['unshare', '-m', 'bash', '-c', script], capture_output=True, text=True, timeout=timeout)
+    except (OSError, subprocess.SubprocessError):
+        return None
+    return p.returncode, p.stdout + p.stderr
+
+
+@trial('C17', 'C01')
+def tree_across_file_systems(run, sb):
+    """a source tree that spans several file systems (two freshly made tmpfs volumes mounted inside it: their directories have the same inode
+    numbers): every entry is listed and copied"""
+    base = os.path.join(sb.dir, 'taf'); src, dst = os.path.join(base, 'src'), os.path.join(base, 'dst')
+    os.makedirs(os.path.join(src, 'vol1')); os.makedirs(os.path.join(src, 'vol2')); open(os.path.join(src, 'top'), 'w').write('t')
+    script = f'''set -e
+mount -t tmpfs none {src}/vol1; mount -t tmpfs none {src}/vol2
+for v in vol1 vol2; do mkdir -p {src}/$v/data/deeper {src}/$v/other; echo x > {src}/$v/data/file.txt; echo y > {src}/$v/data/deeper/file.txt; echo z > {src}/$v/other/file.txt; done
+{C.CLI_BIN} {src}/ {dst}/ --no-progress > {base}/out.txt 2>&1; echo "rc=$?"
+echo "src=$(find {src} | wc -l) dst=$(find {dst} | wc -l)"
+'''
+    res = _in_mount_namespace(script)
+    if res is None or 'rc=' not in res[1]:
+        run.count('trial:tree-across-file-systems:mount-not-possible'); shutil.rmtree(base, ignore_errors=True); return
+    import re
+    m1 = re.search(r'rc=(\d+)', res[1]); m2 = re.search(r'src=(\d+) dst=(\d+)', res[1])
+    rc = int(m1.group(1)); ns, nd = (int(m2.group(1)), int(m2.group(2))) if m2 else (0, -1)
+    run.case(('trial', 'tree-across-file-systems'), True, sample=dict(layer='L4', trial='tree-across-file-systems', rc=rc, source_entries=ns, destination_entries=nd))
+    run.count('trial:tree-across-file-systems')
+    if rc == 0 and ns != nd:
+        viol(run, 'listing a folder reports every entry beneath it exactly once, for every tree shape (here: a tree across three file systems whose directories share inode numbers)',
+             rc=rc, source_entries=ns, destination_entries=nd); return
+    shutil.rmtree(base, ignore_errors=True)
+
+
+@trial('C08', 'C07', 'C11')
+def destination_fills_up(run, sb):
+    """the destination file system fills up in the middle of a file of several parts (a tmpfs of 1.5 MiB, a file of 2.5 MiB); then there is room
+    again and the same sync runs once more with overwriting permitted: it must converge (no truncated file stamped with the source's time)"""
+    base = os.path.join(sb.dir, 'dfu'); src, dst = os.path.join(base, 'src'), os.path.join(base, 'dst')
+    os.makedirs(src); os.makedirs(dst)
+    data = l3.content(5, 2621440)
+    open(os.path.join(src, 'big.bin'), 'wb').write(data); os.utime(os.path.join(src, 'big.bin'), ns=(10**18, 10**18))
+    script = f'''mount -t tmpfs -o size=1536k none {dst} || exit 9
+{C.CLI_BIN} {src}/ {dst}/ --no-progress > {base}/o1.txt 2>&1; echo "rc1=$?"
+echo "size1=$(stat -c %s {dst}/big.bin 2>/dev/null || echo none) mt1=$(stat -c %Y {dst}/big.bin 2>/dev/null || echo none)"
+mount -o remount,size=16m {dst}
+{C.CLI_BIN} {src}/ {dst}/ --no-progress --all-destructive-behaviour proceed > {base}/o2.txt 2>&1; echo "rc2=$?"
+cmp -s {src}/big.bin {dst}/big.bin && echo same=1 || echo same=0
+'''
+    res = _in_mount_namespace(script)
+    if res is None or 'rc1=' not in res[1]:
+        run.count('trial:destination-fills-up:mount-not-possible'); shutil.rmtree(base, ignore_errors=True); return
+    import re
+    g = lambda k: (re.search(k + r'=(\S+)', res[1]) or [None, None])[1]
+    run.case(('trial', 'destination-fills-up'), True, sample=dict(layer='L4', trial='destination-fills-up', first_rc=g('rc1'), partial_size=g('size1'), rerun_rc=g('rc2'), converged=g('same')))
+    run.count('trial:destination-fills-up')
+    if g('rc1') == '0' and g('same') != '1':
+        viol(run, 'exit 0 only if the file was written completely', first_rc=0); return
+    if g('same') != '1' or g('rc2') != '0':
+        viol(run, 're-running the same sync with overwriting permitted always converges to the mirror state (a destination that ran out of space in the middle of a file must not keep a truncated file stamped with the source\'s time)',
+             first_rc=g('rc1'), partial_size=g('size1'), partial_mtime_s=g('mt1'), source_mtime_s=10**9, rerun_rc=g('rc2'), rerun_output=open(os.path.join(base, 'o2.txt')).read()[-300:] if os.path.exists(os.path.join(base, 'o2.txt')) else ''); return
+    shutil.rmtree(base, ignore_errors=True)
